@@ -351,8 +351,8 @@ PROPS['C15'] = dict(
          "non-zero xor and adopted; non-trivial = at least one record saved.",
     assumptions=ASSUME_SIM + ["32-bit checksum: damage of two or more bytes is measured, not claimed"],
     exhaustive_note="the single-byte damage enumeration is complete per generated record of <= 300 bytes; records are sampled",
-    quick=dict(engines=C15_ENGINES_QUICK + [rapid('^TestC15bStoredValues', 1600, steps=25)]),
-    thorough=dict(engines=C15_ENGINES_THOROUGH + [rapid('^TestC15bStoredValues', 40000, shards=14, steps=40, timeout=1500),
+    quick=dict(engines=C15_ENGINES_QUICK + [rapid('^TestC15bStoredValues', 1600, steps=25), rapid('^TestC15MarkerDamagedLive', 800)]),
+    thorough=dict(engines=C15_ENGINES_THOROUGH + [rapid('^TestC15MarkerDamagedLive', 20000, shards=8, timeout=1500), rapid('^TestC15bStoredValues', 40000, shards=14, steps=40, timeout=1500),
                            dict(kind='fuzz', run='^FuzzC15Decode$', fuzztime='60s', parallel=8, timeout=400)]),
 )
 
@@ -376,8 +376,8 @@ PROPS['C09'] = dict(
          "byte limit itself are not emitted (memory); the limit is exercised on the denial side only. Non-trivial: an input "
          "from a boundary or ill-formed class (everything but short valid ASCII).",
     assumptions=ASSUME_SIM,
-    quick=dict(engines=[rapid('^TestC09Requests', 3200), rapid('^TestC09Connect', 8000)]),
-    thorough=dict(engines=[rapid('^TestC09Requests', 80000, shards=14, timeout=1500), rapid('^TestC09Connect', 200000, shards=14, timeout=1500)]),
+    quick=dict(engines=[rapid('^TestC09Requests', 3200), rapid('^TestC09Connect', 8000), rapid('^TestC09MaxSize', 2000, shards=2)]),
+    thorough=dict(engines=[rapid('^TestC09Requests', 80000, shards=14, timeout=1500), rapid('^TestC09Connect', 200000, shards=14, timeout=1500), rapid('^TestC09MaxSize', 40000, shards=4, timeout=1500)]),
 )
 
 # Generator and oracle extensions made while the checks were strengthened against the seeded changes (DESIGN.md §13).
@@ -404,7 +404,7 @@ RULE_ADDENDA = {
            "the cases; oracle over the bytes each connection received (strict reference decoder, payload equality, success only "
            "when complete; time budgets are inconclusive, never violations). Non-trivial there: a reconnect, a connection which "
            "ended inside a packet, or a request which failed. cancelledWhileWaiting: 1-3 Publish calls with a quit channel wait for the connection and are cancelled, then 2-4 publishes at once. One ending in four: Disconnect (quit fired, firing later, or nil) while a writer is parked inside a packet. Behind the recording Persistence double sits, per case, its own map (5 in 8), the library's in-memory map (2 in 8) or mqtt.FileSystem on a scratch directory (1 in 8). One case in five runs on a session made the way VolatileSession makes it (the library's map, no checksum layer). wanderingPingresp (an unsolicited PINGRESP, possibly overtaking a PINGREQ in transit); a parked Write may fail once released; no more successful Pings than complete PINGREQ packets.",
-    'C09': "Also: the over-the-limit payload class is drawn in 1 of 8 quick-tier cases. The over-the-limit string class also comes as 21,846 three-byte characters (over 65,535 bytes, under 65,535 characters).",
+    'C09': "Also: the over-the-limit payload class is drawn in 1 of 8 quick-tier cases. The over-the-limit string class also comes as 21,846 three-byte characters (over 65,535 bytes, under 65,535 characters). TestC09MaxSize: the six publish methods x topic lengths {1,2,7,100,65535} x remaining length 268,435,455 -7..+3 on an offline client with a fired quit (nothing of the 256 MiB is read): up to the limit never IsDeny, beyond it IsDeny. Strings with U+0000 behind a multi-byte character.",
     'C10': "Also: reader states skipping-dup-big (discarding the payload of a retransmitted exactly-once message larger than the "
            "read buffer, tail outstanding) and holding-big-tail-outstanding; failure 'silence' (nothing but PauseTimeout); in state handshake the broker may stay silent for good. Extra "
            "invariant: once ReadSlices reported an error while reading from a connection, no later ReadSlices reads from it. Reader state connack-arrives-under-slow-save (a persisted publish is inside a parked Persistence.Save when the CONNACK is released). mid-packet-stall prefixes also end inside the remaining-length bytes. Behind the recording Persistence double sits, per case, its own map (5 in 8), the library's in-memory map (2 in 8) or mqtt.FileSystem on a scratch directory (1 in 8). One case in five runs on a session made the way VolatileSession makes it (the library's map, no checksum layer). Failed connects include Dialer errors which wrap context.Canceled / context.DeadlineExceeded. Failure read-fails-close-is-slow: the peer half-closes, the read routine's Close of the connection is held up, a writer which held the lock completes and a new Subscribe goes out meanwhile: it must be released by that loss too. Failed attempts include a Dialer which returns the bare or wrapped context.Canceled while the client is open: that is a failed attempt like any other (redial follows), not the end of the client.",
@@ -415,10 +415,10 @@ RULE_ADDENDA = {
     'C12': "Also: in state dialing the Dialer may ignore the end of its context and hand out a connection after Close (it must "
            "be closed; Close itself need not beat such a Dialer). State next-write-fails (the next Write on the connection times out or resets: DISCONNECT itself, if no request comes first). Behind the recording Persistence double sits, per case, its own map (5 in 8), the library's in-memory map (2 in 8) or mqtt.FileSystem on a scratch directory (1 in 8). One case in five runs on a session made the way VolatileSession makes it (the library's map, no checksum layer). Every error ReadSlices returns before ErrClosed must get a non-nil ReadBackoff.",
     'C13': "Also: after a violation and the redial a PUBLISH is sent on the fresh connection and must come out as sent (clean "
-           "slate: no skip count, big-message marker or partial packet carried over). Setup may include 0-2 publishes per level refused by a failing Save; announced topic lengths up to 0xffff. TestC13AckBeforeWritten: 0-2 pending transfers, the next publish parks 0-12 bytes into its Write, the broker acknowledges everything including the packet in transit, the Write then ends by reset, timeout or completion: no panic, the call returns, the session goes on.",
+           "slate: no skip count, big-message marker or partial packet carried over). Setup may include 0-2 publishes per level refused by a failing Save; announced topic lengths up to 0xffff. TestC13AckBeforeWritten: 0-2 pending transfers, the next publish parks 0-12 bytes into its Write, the broker acknowledges everything including the packet in transit, the Write then ends by reset, timeout or completion: no panic, the call returns, the session goes on. Hostile packets include acknowledgements whose identifier is plausible (the one next in line among them) followed by 1-2 surplus bytes.",
     'C14': "Simulated half, state online without fault: in 1 of 3 cases an earlier persisted publish of the level was refused (its Save failed); the publish which follows must be accepted, report no submission error on its exchange and be on the wire. In 1 of 4 online cases the connection's Close reports an error (as a TLS close_notify to a peer which is gone).",
     'C15': "Also (stored-values half): the Persistence double reads the buffers when a slow Save gets to them, not on entry; "
-           "slowSave overlaps Saves of the read routine and of both publish levels. A single-byte alteration of an inbound marker must be reported by AdoptSession too; the parked publish of slowSave may be retained, and 0-2 QoS 0 publishes compose their packets meanwhile. In 1 of 4 adoptions of the damaged store Persistence.Delete fails once (no panic, still reported, never used). Behind the recording Persistence double sits, per case, its own map (5 in 8), the library's in-memory map (2 in 8) or mqtt.FileSystem on a scratch directory (1 in 8). After the adoption of the altered store the first ReadSlices must neither panic nor fail (client-identifier record excepted: F17).",
+           "slowSave overlaps Saves of the read routine and of both publish levels. A single-byte alteration of an inbound marker must be reported by AdoptSession too; the parked publish of slowSave may be retained, and 0-2 QoS 0 publishes compose their packets meanwhile. In 1 of 4 adoptions of the damaged store Persistence.Delete fails once (no panic, still reported, never used). Behind the recording Persistence double sits, per case, its own map (5 in 8), the library's in-memory map (2 in 8) or mqtt.FileSystem on a scratch directory (1 in 8). After the adoption of the altered store the first ReadSlices must neither panic nor fail (client-identifier record excepted: F17). TestC15MarkerDamagedLive: a reception marker is altered in one byte or cut while the client runs, then the broker retransmits the PUBLISH: ReadSlices must report an error, not deliver again in silence.",
     'C16': "Also: AtLeastOnceMax/ExactlyOnceMax from {16,16,2,3,4}; 1 in 8 adoptions with Persistence.Delete failing once "
            "(only 'no panic' is judged then); 'second life' (the adopted client fills its queues, the process stops, the next "
            "AdoptSession without new damage must work, connect and complete). Before the second stop 0-4 PUBRECs are released; every transfer the adopted client itself accepted and had pending at its stop must be on the first connection of the next process. Behind the recording Persistence double sits, per case, its own map (5 in 8), the library's in-memory map (2 in 8) or mqtt.FileSystem on a scratch directory (1 in 8). In 1 of 4 adoptions the store is mqtt.FileSystem with 1-3 stray directory entries next to the records: an upper-case spelling of a record's name, a sub-directory named like a key, a spool leftover, foreign files, names of 4 and 6 hexadecimals. Damage kind 'hollow': a record whose bytes are well formed (sequence number plus matching checksum) yet hold no packet. One adoption in five is preceded by a misconfigured one (limits of 1) whose warnings count. Stray directories named like a record which a publish of the history will store are excluded by construction (open finding F31, probe TestC16KnownF31). The Delete which fails during adoption is the first to fourth; afterwards every outbound record still stored is either resumed by the client or the one whose Delete failed. Stray entries include symbolic links (to a directory, dangling) named like keys. AdoptSession runs under the hang oracle (no Persistence operation for 4 s).",
